@@ -160,6 +160,27 @@ fn cut_check(tables: &Tables, ci: usize, hist: &[u8]) -> Vec<Failure> {
         Outcome::Ok(t) => t,
         _ => return out,
     };
+    // the same input split into two files (first file without a final newline) must give the same printed table
+    let one = sut::files_from(&lines, &[lines.len()]);
+    let whole_files = sut::run_files(tables, &st, &[one[0].as_slice()], sut::FileRunOpts::default());
+    for cut in 1..lines.len() {
+        let two = sut::files_from(&lines, &[cut, lines.len() - cut]);
+        let first_noeol = &two[0][..two[0].len() - 1];
+        let split = sut::run_files(tables, &st, &[first_noeol, two[1].as_slice()], sut::FileRunOpts::default());
+        if let (Outcome::Ok(x), Outcome::Ok(y)) = (&whole_files, &split) {
+            if x.printed != y.printed || x.result.is_ok() != y.result.is_ok() {
+                out.push(fail(
+                    format!("file-split-law:{}", ci),
+                    format!("`{}`: result over two files (cut {}, first file without final newline) differs from the result over one file", text, cut),
+                    json!({"law": "cut", "stmt": ci, "statement": text, "history": hist, "lines": lines, "cut": cut, "files": true}),
+                    json!(x.printed),
+                    json!(y.printed),
+                    hist.len() as u64,
+                ));
+                break;
+            }
+        }
+    }
     for cut in 0..=lines.len() {
         let a = sut::run_batch(tables, &st, &lines[..cut]);
         let b = sut::run_batch(tables, &st, &lines[cut..]);
